@@ -43,7 +43,7 @@ def sync_program(draw):
     ]
     colls = ["c1", "c1", "a1", "a1", "b1", "b1"] if bare else ["c1", "c1", "c1", "a1", "a1", "c2"]
     for _ in range(draw(st.integers(10, 28))):
-        op = draw(st.sampled_from(["PUT"] * 7 + ["DELETE"] * 4 + ["SYNC"] * 6 + ["PROPPATCH", "RESTART", "RECREATE"]))
+        op = draw(st.sampled_from(["PUT"] * 7 + ["DELETE"] * 4 + ["SYNC"] * 6 + ["PROPPATCH", "RESTART", "RECREATE", "SYNCRACE"]))
         fe = draw(gen_prog.FE)
         coll = draw(st.sampled_from(colls))
         isab = coll == "a1"
@@ -59,6 +59,9 @@ def sync_program(draw):
             if k == "foreign":
                 spec["f"] = draw(st.sampled_from(FOREIGN))
             steps.append({"op": "REPORT", "kind": "sync", "fe": fe, "coll": coll, "tok": spec, "props": draw(st.sampled_from(["etag", "etag", "etag", "ctype", "rt+ctype", "etag+ctype", "none"]))})
+        elif op == "SYNCRACE":
+            n = draw(st.sampled_from(vnames if isab else names))
+            steps.append({"op": "SYNCRACE", "fe": fe, "coll": coll, "name": n, "ctype": "text/vcard" if isab else "text/calendar", "body": enc_body(draw(st.sampled_from(cards if isab else pool)))})
         elif op == "PROPPATCH":
             steps.append({"op": "PROPPATCH", "fe": fe, "coll": coll, "set": [[P_DISPLAYNAME, draw(st.sampled_from(["one", "two"]))]], "remove": []})
         elif op == "RECREATE":
